@@ -5,8 +5,8 @@ TInit == HInit /\ h \in 1..NHist /\ l = 1
 Ev == Events(h)[l]
 Adv == l' = l + 1 /\ h' = h
 More == l <= Len(Events(h))
-TOResp == More /\ Ev.e = "OResp" /\ OResp(Ev.v, Ev.key, Ev.status, Ev.len) /\ Adv
-TCResp == More /\ Ev.e = "CResp" /\ CResp(Ev.key, Ev.status, Ev.hv, Ev.bv, Ev.canary, Ev.blen, Ev.intact, Ev.complete) /\ Adv
+TOResp == More /\ Ev.e = "OResp" /\ OResp(Ev.v, Ev.key, Ev.status, Ev.len, Ev.whole) /\ Adv
+TCResp == More /\ Ev.e = "CResp" /\ CResp(Ev.key, Ev.status, Ev.hv, Ev.bv, Ev.canary, Ev.blen, Ev.intact, Ev.complete, Ev.fromCache) /\ Adv
 TNext == TOResp \/ TCResp
 Mark == MarkAccepted(h, l)
 ====
